@@ -257,7 +257,7 @@ func (o *confluence) Make(c *Ctx, i int) *Case {
 		cs.Steps = append(cs.Steps, st)
 	}
 	if r.Chance(1, 12) {
-		withPreload(c, r, cs.Steps[0].Files) // definitions preloaded through .ti-loader.json
+		withPreload(c, r, cs.Steps[0].Files, false) // definitions preloaded through .ti-loader.json
 		cs.Meta["origin"] += "+preload"
 	}
 	return cs
